@@ -3,7 +3,8 @@
 (*  - Image: the scenes.image container - a dictionary checksum -> entry that  *)
 (*    is filled from scenes (Add), saved in format version 2 or 3 (Save),      *)
 (*    loaded back (Load / Merge into the current dictionary), entries decoded  *)
-(*    on demand (Touch) or removed (Drop).  Invariants: a saved table is       *)
+(*    on demand (Touch), renamed in place (Rename: the entry's checksum        *)
+(*    changes, its dictionary key goes stale) or removed (Drop).  Invariants: a saved table is       *)
 (*    sorted by checksum with distinct checksums, and every entry's summary    *)
 (*    (duration, sounds; last-speak time except through a version 2 file)      *)
 (*    is the summary of its scene.                                             *)
@@ -23,7 +24,10 @@ VARIABLES img, slots, n, act,       \* image machine
 vars == <<img, slots, n, case, done>>
 
 (* ======================= the container ==================================== *)
-Keys == IF Small THEN {"k1", "k2"} ELSE {"k1", "k2", "k3"}
+\* file names (as checksum classes); dictionary keys and rename targets range over all of them,
+\* scenes are added under the first two (Small) or all three
+Keys == {"k1", "k2", "k3"}
+AddKeys == IF Small THEN {"k1", "k2"} ELSE Keys
 \* a stand-in for the CRC order of the keys (the real order is checked on the real checksums)
 Rank == [k1 |-> 2, k2 |-> 3, k3 |-> 1]
 Variants == {1, 2}      \* spellings of a file name that normalise to the same checksum (k1 only)
@@ -43,16 +47,24 @@ ASSUME Machine # "image" \/ PrintT(ToJson([tag |-> "CONSTS", scenes |-> SceneTab
 ImgInit == /\ img = [k \in Keys |-> NoEntry]
            /\ slots = [s \in Slots |-> [ver |-> 0, table |-> <<>>]]
            /\ n = 0
-Add(k, v, s) == /\ img' = [img EXCEPT ![k] = FromScene(s, SceneTable[s])]
+Add(k, v, s) == /\ img' = [img EXCEPT ![k] = FromScene(k, s, SceneTable[s])]
                 /\ UNCHANGED slots
                 /\ act' = [op |-> "add", k |-> k, v |-> v, s |-> s]
 Drop(k) == /\ img[k].here
            /\ img' = [img EXCEPT ![k] = NoEntry]
            /\ UNCHANGED slots
            /\ act' = [op |-> "drop", k |-> k]
-Save(slot, ver) == /\ slots' = [slots EXCEPT ![slot] = SaveFile(img, Rank, ver)]
-                   /\ UNCHANGED img
-                   /\ act' = [op |-> "save", slot |-> slot, ver |-> ver]
+\* entry.filename = another name: the entry's checksum follows, its dictionary key does not
+Rename(k, k2) == /\ img[k].here /\ img[k].cur # k2
+                 /\ \A o \in Present(img) : img[o].cur # k2
+                 /\ img' = [img EXCEPT ![k].cur = k2, ![k].named = TRUE]
+                 /\ UNCHANGED slots
+                 /\ act' = [op |-> "rename", k |-> k, to |-> k2]
+\* the entries are handed over as the dictionary itself or as a list of its values
+Save(slot, ver, how) == /\ DistinctCur(img)
+                        /\ slots' = [slots EXCEPT ![slot] = SaveFile(img, Rank, ver)]
+                        /\ UNCHANGED img
+                        /\ act' = [op |-> "save", slot |-> slot, ver |-> ver, how |-> how]
 Load(slot) == /\ slots[slot].ver # 0
               /\ img' = LoadFile(slots[slot], Keys)
               /\ UNCHANGED slots
@@ -67,10 +79,11 @@ Touch(k) == /\ img[k].here /\ ~img[k].parsed
             /\ act' = [op |-> "touch", k |-> k]
 ImgNext == /\ n < MaxOps
            /\ n' = n + 1
-           /\ \/ \E k \in Keys, s \in SceneIds : Add(k, 1, s)
+           /\ \/ \E k \in AddKeys, s \in SceneIds : Add(k, 1, s)
               \/ \E s \in SceneIds : Add("k1", 2, s)
               \/ \E k \in Keys : Drop(k) \/ Touch(k)
-              \/ \E slot \in Slots, ver \in {2, 3} : Save(slot, ver)
+              \/ \E k, k2 \in Keys : Rename(k, k2)
+              \/ \E slot \in Slots, ver \in {2, 3}, how \in {"dict", "list"} : Save(slot, ver, how)
               \/ \E slot \in Slots : Load(slot) \/ Merge(slot)
            /\ UNCHANGED <<case, done>>
 
